@@ -161,8 +161,8 @@ def check_pair(case, ctx):
     # the same float64 quaternions / matrices held in a read-only array or a strided view (a broadcast reference, a column of a log)
     for name in MATRIX + QUAT:
         fn = getattr(M, name)
-        vforms.invariant(ctx, name, lambda x, y: fn(x, y), [rq.refR(q1), rq.refR(q2)] if name in MATRIX else [q1.copy(), q2.copy()], lists=False, layouts=True,
-                        tol=1e-7 if name in ("qcip", "qad") else 1e-12, clause="the same values in a read-only array or a strided view give the same distance")
+        vforms.invariant(ctx, name, lambda x, y: fn(x, y), [rq.refR(q1), rq.refR(q2)] if name in MATRIX else [q1.copy(), q2.copy()], lists=False, layouts=True, objects=True,
+                        tol=1e-7 if name in ("qcip", "qad") else 1e-12, clause="the same values in a read-only array, a strided view or one of the library's own array objects give the same distance")
     # N-row inputs
     k = int(case.p["rows"])
     Q1 = np.array([q1] + [forms["left-multiplied"][0]] * (k - 1))
@@ -172,7 +172,8 @@ def check_pair(case, ctx):
     for name in BATCH:
         fn = getattr(M, name)
         vforms.invariant(ctx, name + "[batch]", lambda x, y: fn(x, y), [np.array([rq.refR(x) for x in Q1]), np.array([rq.refR(x) for x in Q2])] if name in MATRIX else [Q1.copy(), Q2.copy()],
-                        lists=False, layouts=True, tol=1e-7 if name in ("qcip", "qad") else 1e-12, clause="the same values in a read-only array or a strided view give the same distance")
+                        lists=False, layouts=True, objects=True, tol=1e-7 if name in ("qcip", "qad") else 1e-12,
+                        clause="the same values in a read-only array, a strided view or one of the library's own array objects give the same distance")
     for name in BATCH:
         fn = getattr(M, name)
         r = name + "[batch]"
